@@ -14,7 +14,7 @@ from lib import sysrun
 ID = 'C01'
 COQ_CONE = ['Properties/C01.v']
 EXTRACT = 'Extract/C01Extract.v'
-DRIVER = ['ocaml/Flow_driver.ml', 'ocaml/Flow_main.ml']
+DRIVER = ['ocaml/Pipeline_driver.ml', 'ocaml/Flow_driver.ml', 'ocaml/Flow_main.ml']
 MONITORS = ['mon_c01']
 ASSUMPTIONS = [
     'users and third parties never write destination branches or robot-owned names (reading of DESIGN 5.0)',
